@@ -3,6 +3,7 @@ CONSTANTS
   Vals = {1, 2}
   Keys = {"k1", "k2"}
   MaxLen = 3
+  KindSet = {"counter", "list", "dict", "set", "queue", "pqueue"}
   QMax = 0
 INVARIANT TypeOK
 INVARIANT SortedPQ
